@@ -237,6 +237,18 @@ def run(tier, seed):
                 bad.append(dict(failed="forces are minus the expectation value of the gradient in the adiabatic states (user-defined model keeping its gradient array, point %d of a sequence: force %r, expected %r)" % (j, np.array(el._force).tolist(), wantF.tolist()), case=dict(base=Base.__name__, x=X.tolist()))); break
             last = el
         res.case(("keeper", Base.__name__), True)
+    class IntSlope(DiabaticModel_):
+        def __init__(self):
+            DiabaticModel_.__init__(self, representation="adiabatic", nstates=2, ndim=2); self.mass = np.array([2000.0, 3000.0])
+        def V(self, X): return np.array([[2.0 * X[0] - X[1], 0.75], [0.75, -2.0 * X[0] + 3.0 * X[1]]])
+        def dV(self, X): return np.array([[[2, 0], [0, -2]], [[-1, 0], [0, 3]]])        # whole-number slopes, integer dtype
+    mi_ = IntSlope()
+    for j in range(4):
+        X = np.array([rng.uniform(-0.5, 0.5), rng.uniform(-0.5, 0.5)]); el = mi_.update(X); C_ = el._reference; g_ = np.asarray(mi_.dV(X), dtype=float)
+        wantF = np.array([[-C_[:, i] @ g_[d] @ C_[:, i] for d in range(2)] for i in range(2)])
+        res.count("user-model-integer-gradient")
+        if np.max(np.abs(np.asarray(el._force, dtype=float) - wantF)) > 1e-13 or np.max(np.abs(np.einsum("iix->ix", el.force_matrix()) - wantF)) > 1e-13:
+            bad.append(dict(failed="the force on each state is minus the gradient of that state's energy, equal to the diagonal of the force matrix (user-defined model whose dV has an integer dtype: force %r, expected %r)" % (np.asarray(el._force).tolist(), wantF.tolist()), case=dict(x=X.tolist()))); break
     # an electronics object computed a second time (compute() is public) holds the quantities of the new position, all of them
     for name in ("simple", "dual", "super", "vibronic", "modelx"):
         m, x, _, _ = model_case(rng, name); x = np.array(x, dtype=float); x2 = x + np.array([rng.uniform(0.2, 0.7) for _ in x])
@@ -292,6 +304,29 @@ def run(tier, seed):
             okx = False; why = "%s: %s" % (type(ex).__name__, ex)
         if not okx:
             bad.append(dict(failed="the harmonic model survives a save/load round trip unchanged (%s, values such as 5e-10 and 1e+16: %s)" % (ext, why), case=dict(ext=ext)))
+    for ext in ("json", "yaml"):
+        fn = os.path.join(tmproot, "again." + ext)
+        ha = HarmonicModel([0.25, -0.5], 0.125, [[0.5, 0.0625], [0.0625, 0.75]], [100.0, 200.0]); ha.to_file(fn); la = HarmonicModel.from_file(fn); la2 = HarmonicModel.from_file(fn)
+        hb = HarmonicModel([1.5, 2.5], -0.375, [[0.25, 0.0], [0.0, 0.125]], [300.0, 50.0]); hb.to_file(fn); lb = HarmonicModel.from_file(fn)
+        res.count("model/harmonic-file-overwritten")
+        if not (np.array_equal(lb.x0, hb.x0) and lb.E0 == hb.E0 and np.array_equal(lb.H0, hb.H0) and np.array_equal(lb.mass, hb.mass) and np.array_equal(la.x0, ha.x0)):
+            bad.append(dict(failed="the harmonic model survives a save/load round trip unchanged (%s: a file written again with another model loads as x0=%r, saved x0=%r)" % (ext, np.asarray(lb.x0).tolist(), hb.x0.tolist()), case=dict(ext=ext)))
+        e_a = float(la.update(np.array([0.0, 0.0])).hamiltonian()[0]); la2.update(np.array([3.0, 3.0])); la2.compute(np.array([5.0, -5.0]))
+        if la is la2 or float(la.update(np.array([0.0, 0.0])).hamiltonian()[0]) != e_a:
+            bad.append(dict(failed="two loads of one file give two independent models (computing on one changes the other)", case=dict(ext=ext)))
+    # shin-metiu built with different electron masses / boxes / grids in one process: each instance's electronic Hamiltonian has its own finite-difference kinetic term
+    for kw_ in (dict(nel=32), dict(nel=32, m_el=2.0), dict(nel=32, box=30.0), dict(nel=64), dict(nel=32, L=12.0, m_el=0.5)):
+        try:
+            sm = S.ShinMetiu(**kw_)
+        except TypeError:
+            continue
+        Hs = np.asarray(sm.V_el(np.array([0.3]))); n_ = Hs.shape[0]
+        rr_ = getattr(sm, "rr", None)
+        if rr_ is None: break
+        dr_ = float(rr_[1] - rr_[0]); want_off = -0.5 / (sm.m_el * dr_ * dr_)
+        res.count("model/shin-metiu-kinetic-term")
+        if abs(Hs[0, 1] - want_off) > 1e-12 * abs(want_off) or abs(Hs[n_ - 2, n_ - 1] - want_off) > 1e-12 * abs(want_off):
+            bad.append(dict(failed="shin-metiu's electronic Hamiltonian depends only on the position and on the instance's own parameters (options %r: off-diagonal kinetic element %r, expected -1/(2 m dr^2) = %r)" % (kw_, float(Hs[0, 1]), want_off), case=dict(options=kw_)))
     shutil.rmtree(tmproot, ignore_errors=True)
     # mudslide-surface rows agree with the model object
     from mudslide.surface import surface_main
